@@ -99,6 +99,20 @@ fn for_each_key_sequence(k: usize, f: &mut dyn FnMut(&[usize])) {
     rec(k, &mut Vec::new(), f);
 }
 
+/// A member value of a given kind (the kind of a sibling value must not influence the order of
+/// the keys: number, string, null, boolean, array, object).
+const VALUE_KINDS: usize = 6;
+fn kinded(i: usize, kind: usize) -> RV {
+    match kind {
+        0 => RV::Num(i.to_string()),
+        1 => RV::Str(format!("s{i}")),
+        2 => RV::Null,
+        3 => RV::Bool(i % 2 == 0),
+        4 => RV::Arr(vec![]),
+        _ => RV::Obj(vec![("k".into(), RV::Null)]),
+    }
+}
+
 fn obj_of(seq: &[usize]) -> RV {
     RV::Obj(seq.iter().enumerate().map(|(j, &i)| (KEYS[i].to_string(), RV::Num(j.to_string()))).collect())
 }
@@ -137,6 +151,19 @@ fn keys_family(rep: &mut Report, tier: Tier, mode: &str) {
                         t.violation("", format!("member order changes the canonical output: {a:?} vs {b:?}"), case_value(&with_vals(seq)));
                     }
                 }
+                // every assignment of value kinds to the members of a short selection
+                if (1..=3).contains(&seq.len()) {
+                    let n = seq.len();
+                    for code in 1..VALUE_KINDS.pow(n as u32) {
+                        let kinds: Vec<usize> = (0..n).map(|j| code / VALUE_KINDS.pow(j as u32) % VALUE_KINDS).collect();
+                        let v = RV::Obj(seq.iter().enumerate().map(|(j, &i)| (KEYS[i].to_string(), kinded(i, kinds[j]))).collect());
+                        if mode == "C09" {
+                            c09_value(&v, t);
+                        } else {
+                            c10_value(&v, t);
+                        }
+                    }
+                }
                 t.nontrivial(&seq);
                 let utf16_vs_cp = seq.iter().any(|&i| (7..=8).contains(&i) || i == 12) && seq.iter().any(|&i| (9..=11).contains(&i));
                 t.outcome(if utf16_vs_cp { "keys:utf16-order-differs-from-code-point-order" } else if seq.len() < 2 { "keys:trivial" } else { "keys:orders-coincide" });
@@ -164,7 +191,7 @@ fn keys_family(rep: &mut Report, tier: Tier, mode: &str) {
         rep.absorb(t);
     }
     let _ = for_each_key_sequence;
-    rep.bounds["keys"] = json!({"key_set": KEYS.iter().map(|k| RV::Str(k.to_string()).show()).collect::<Vec<_>>(), "max_members": maxk, "orders": "every ordered selection (all subsets in every permutation)", "shapes": ["flat", "object in object", "object in array"]});
+    rep.bounds["keys"] = json!({"key_set": KEYS.iter().map(|k| RV::Str(k.to_string()).show()).collect::<Vec<_>>(), "max_members": maxk, "orders": "every ordered selection (all subsets in every permutation)", "shapes": ["flat", "object in object", "object in array"], "value_kinds": "every assignment of the 6 value kinds (number, string, null, boolean, array, object) to the members of every selection of 1..=3 keys"});
 }
 
 /// Keys that share a long common prefix and differ late (C09, C10): every ordered pair of the
@@ -204,6 +231,17 @@ fn prefixed_keys_family(rep: &mut Report, tier: Tier, mode: &str) {
                         continue;
                     }
                     let v = RV::Obj(vec![(ka.clone(), RV::Num("1".into())), (kb.clone(), RV::Num("2".into()))]);
+                    // (value kinds other than numbers, at a few prefix lengths)
+                    if matches!(l, 0 | 1 | 2 | 7 | 8 | 15 | 16 | 17) && sa.is_empty() {
+                        for code in 1..VALUE_KINDS * VALUE_KINDS {
+                            let w = RV::Obj(vec![(ka.clone(), kinded(1, code % VALUE_KINDS)), (kb.clone(), kinded(2, code / VALUE_KINDS))]);
+                            if mode == "C09" {
+                                c09_value(&w, t);
+                            } else {
+                                c10_value(&w, t);
+                            }
+                        }
+                    }
                     if mode == "C09" {
                         c09_value(&v, t);
                         c09_value(&RV::Arr(vec![RV::Null, v.clone()]), t);
@@ -462,6 +500,12 @@ fn numbers_family(rep: &mut Report, tier: Tier) {
                 for s in canon::sticky_spellings(x) {
                     number_case(&s, t);
                     t.outcome("number:midpoint + zeros + 1 (sticky digit far beyond every precision)");
+                }
+            }
+            if x.to_bits() % 8 == 0 || x > 1e300 || x < 1e-300 {
+                for s in canon::shifted_spellings(x) {
+                    number_case(&s, t);
+                    t.outcome("number:decimal point moved 1..25 places, exponent adjusted");
                 }
             }
         }
@@ -836,6 +880,9 @@ fn c10_documents(rep: &mut Report, tier: Tier) {
                     // just above the midpoint below x: the same double as x's own spellings
                     all_spellings.extend(canon::sticky_spellings(f64::from_bits(x.to_bits() - 1)));
                     all_spellings.extend(long_spellings(x).into_iter().take(1));
+                }
+                if x.to_bits() % 8 == 0 || x > 1e300 || (x > 0.0 && x < 1e-300) {
+                    all_spellings.extend(canon::shifted_spellings(x));
                 }
                 for sp in all_spellings {
                     let y: f64 = match sp.parse() {
